@@ -242,7 +242,8 @@ def match_known(pid, cls, site, findings):
     for f in findings:
         if f.get("status") != "open" or f.get("property") != pid:
             continue
-        if f.get("class") == cls and f.get("site", "") in (site or ""):
+        classes = f.get("classes") or [f.get("class")]
+        if cls in classes and f.get("site", "") in (site or ""):
             return f
     return None
 
@@ -296,6 +297,7 @@ def run_batch(pid, tier, verif_seed, nruns, workers, budget_s, timeout=60.0, pro
     from concurrent.futures import ProcessPoolExecutor, as_completed
     import multiprocessing as mp
     mod = load_prop(pid)
+    findings = load_known_findings()
     t0 = time.time()
     chunk = max(1, min(25, nruns // (workers * 4) or 1))
     chunks = [list(range(i, min(nruns, i + chunk))) for i in range(0, nruns, chunk)]
@@ -333,7 +335,7 @@ def run_batch(pid, tier, verif_seed, nruns, workers, budget_s, timeout=60.0, pro
                             keys=[], digest="", nevents=0, head=None, spec=None, tb=traceback.format_exc(), site=None,
                             wall=0.0)]
             results.extend(out)
-            if any(r["status"] in ("violation", "harness") for r in out):
+            if any(r["status"] == "harness" or (r["status"] == "violation" and match_known(pid, r["cls"], r["site"], findings) is None) for r in out):
                 stop = True
             if time.time() - t0 > budget_s and not stop:
                 stop = True
